@@ -31,8 +31,8 @@ def write_graph(dot, path):
     return len(nodes), len(edges)
 
 
-def run_walk(c, binary, graph, variant, nkeys, sanit):
-    rc, out, err = c.run([binary, "walk", graph, str(variant), str(nkeys)], timeout=1500)
+def run_walk(c, binary, graph, variant, nkeys, sanit, maxslots):
+    rc, out, err = c.run([binary, "walk", graph, str(variant), str(nkeys), str(maxslots)], timeout=1500)
     lines = out.splitlines()
     for ln in lines:
         if ln.startswith("MISMATCH"):
@@ -74,9 +74,9 @@ def main():
     # ---- spec -> code
     variants = [0, 1, 2, 3]
     for v in variants:
-        run_walk(c, asan, os.path.join(c.out, "one.graph"), v, 3, "asan")
+        run_walk(c, asan, os.path.join(c.out, "one.graph"), v, 3, "asan", 4)
     for v in (variants if c.thorough else [0, 1]):
-        run_walk(c, plain if not c.thorough else asan, os.path.join(c.out, "two.graph"), v, 3, "plain")
+        run_walk(c, plain if not c.thorough else asan, os.path.join(c.out, "two.graph"), v, 3, "plain", 3 if c.thorough else 2)
     c.count(distinct_keys=[("edge", i) for i in range(e1 + e2)])
 
     # ---- code -> spec
